@@ -13,6 +13,10 @@ CLAIMED = {
          "Seeded deterministic simulation of routes O -> U_1..U_m -> K where every intermediary has its own drawn subset of known types (registry sets installed by hook H1), plus a direct control route; per-delivery invariants at every unknowing process (text and shape per node, type names/marks, safe details of opaque layers, verbatim re-encoding of unknown wire nodes, whole-message equality when nothing is known); history check: the final knowing process observes exactly what the control observes (tree, Is row, accessors, stacks, %v, %+v). Sampling, not proof.",
          "5/C04", "trusted: hook H1 models 'does not know a type' as absence of its registry entries (DESIGN.md 8.3); known findings listed in known_findings.json are not re-reported",
          "deterministic simulation: per-process type registries, seeded knowledge subsets and routes, per-delivery invariants + control-route history comparison"),
+ "C02": ("exploration",
+         "Seeded deterministic simulation in which an error and up to three references travel independent routes through knowing and unknowing processes and back to the origin; invariants per delivery: the Is row of the transferred error against the local reference pool equals the origin row at knowing processes (stdlib sentinels at unknowing ones), pairs that meet at a knowing process answer as at the origin, a transferred reference answers as the original unless the origin match is not explainable by mark equality (reference model of marks), no new match ever appears, IsAny equals the disjunction. Sampling, not proof.",
+         "5/C02", "trusted: reference model of mark equality (message + full type-mark chain, explicit marks from Mark) used only to decide which origin matches a copy can be expected to keep; text changes in transit are reported with the texts so that recorded C01/C04 findings are recognised",
+         "deterministic simulation: multi-flow cluster simulation with per-delivery Is-row invariants against a mark-equality reference model"),
 }
 
 NOT_APPLICABLE = {
